@@ -1,5 +1,5 @@
 (* kind conv: one scripted conversation with the server *)
-From Smtp Require Import Bytes Sx GoStrings Transport DataReader Parse Reply Rfc3339 Lmtp Conn Order CheckBase CheckOracle.
+From Smtp Require Import Bytes Sx GoStrings Transport DataReader Parse Reply Rfc3339 Lmtp Conn Order OrderStrict CheckBase CheckOracle.
 
 (* ---------- decoding ---------- *)
 
@@ -348,7 +348,7 @@ Definition check_conv (args : list sx) : verdict :=
           let model := conv_obs cfg evs in
           let agree := negb (has_out_of_fuel evs)
                        && (sx_eqb model (canon_obs obs) || trace_nondet cfg evs) in
-          let mon_ok := match mon_run cfg (mon_init (cf_implicit_tls cfg)) evs with Some _ => true | None => false end in
+          let mon_ok := match smon_run cfg (smon_init (cf_implicit_tls cfg)) evs with Some _ => true | None => false end in
           let expect := match assoc "expect" args with Some e => e | None => [] end in
           mkV true (agree && mon_ok) model (conv_oracle cfg be obs expect) []
               ((match assoc "expect" args with Some e => [bs "focus-" ++ focus_of e] | None => [] end) ++ conv_tags cfg evs ++ (if trace_nondet cfg evs then [bs "nondet-param-order"] else [])
